@@ -990,29 +990,33 @@ class SCFG(Sized):
 def _replace_jump_targets(
     block: BasicBlock, jump_targets: Tuple[str, ...]
 ) -> BasicBlock:
-    """Replace the jump targets of a block that acts as a predecessor.
+    """Replace the (forward) jump targets of a block that acts as a
+    predecessor.
+
+    The given jump targets replace the jump targets of the block that are not
+    declared as backedges, position by position; any backedges of the block
+    are retained where they are.
 
     If the block is a region, the jump targets of the region are a copy of
     the jump targets of its exiting block. In that case the exiting block
     inside the region is updated too (recursively, since the exiting block may
-    itself be a region), such that both stay in sync. Any backedges of the
-    exiting block are retained.
+    itself be a region), such that both stay in sync.
     """
     if isinstance(block, RegionBlock):
         assert block.subregion is not None
         assert block.exiting is not None
         exiting = block.subregion.graph.pop(block.exiting)
+        block.subregion.add_block(_replace_jump_targets(exiting, jump_targets))
+    if block.backedges:
         remaining = list(jump_targets)
-        exiting_jt = []
-        for target in exiting._jump_targets:
-            if target in exiting.backedges:
-                exiting_jt.append(target)
+        merged = []
+        for target in block._jump_targets:
+            if target in block.backedges:
+                merged.append(target)
             elif remaining:
-                exiting_jt.append(remaining.pop(0))
-        exiting_jt.extend(remaining)
-        block.subregion.add_block(
-            _replace_jump_targets(exiting, tuple(exiting_jt))
-        )
+                merged.append(remaining.pop(0))
+        merged.extend(remaining)
+        jump_targets = tuple(merged)
     return block.replace_jump_targets(jump_targets=jump_targets)
 
 
